@@ -820,12 +820,43 @@ def caller_data(tier="quick", seed=0, only=None):
                 touched = [k[0] for k, v0 in cach_p._born.items() if _snap(cach_p._cache[k]) != v0]
                 if touched:
                     failures.append(dict(label=f"C11:object_returned_by_{touched[0]}_callback_modified_by_solve:{fmt}:{scal}", input=inp, observed=f"{len(touched)} cached callback results changed ({sorted(set(touched))})"))
+    # (c) the flow-integration solver on the same cached problems: whatever its run ends in (it has internal
+    # assertions), every object the callbacks handed out keeps its value
+    from pygradflow.integration.integration_solver import IntegrationSolver
+
+    import warnings as _w
+
+    for name, (mk, x0, y0) in S.items():
+        if name == "qp_big_multipliers":
+            continue
+        for fmt in FORMATS[: (1 if tier == "quick" else 3)]:
+            inp = dict(scenario=name, format=fmt, level="integration-solve")
+            if only is not None and only != inp:
+                continue
+            cach_p = _caching(mk(), fmt)
+            xa = None if x0 is None else np.array(x0, copy=True)
+            ya = None if y0 is None else np.array(y0, copy=True)
+            owned = dict(x0=xa, y0=ya, var_lb=cach_p.var_lb, var_ub=cach_p.var_ub, cons_lb=cach_p.cons_lb, cons_ub=cach_p.cons_ub)
+            snaps = {k: _snap(v) for k, v in owned.items() if v is not None}
+            cases += 1
+            try:
+                with _w.catch_warnings():
+                    _w.simplefilter("ignore")
+                    IntegrationSolver(cach_p, mk_params(iteration_limit=20, time_limit=20.0)).solve(xa, ya)
+            except Exception:  # noqa  (no result: only the caller's data is judged here)
+                pass
+            for k, v in owned.items():
+                if v is not None and _snap(v) != snaps[k]:
+                    failures.append(dict(label=f"C11:{k}_modified_by_integration_solve", input=inp, observed=k))
+            touched = [k[0] for k, v0 in cach_p._born.items() if _snap(cach_p._cache[k]) != v0]
+            if touched:
+                failures.append(dict(label=f"C11:object_returned_by_{touched[0]}_callback_modified_by_integration_solve:{fmt}", input=inp, observed=f"{len(touched)} cached callback results changed ({sorted(set(touched))})"))
     seen, uniq = set(), []
     for f in failures:
         if f["label"] not in seen:
             seen.add(f["label"])
             uniq.append(f)
-    return result(cases, uniq, "scenario list x {COO,CSR,CSC} x {unscaled, custom scaling}; wrapper methods and 30-iteration solves")
+    return result(cases, uniq, "scenario list x {COO,CSR,CSC} x {unscaled, custom scaling}; wrapper methods, 30-iteration solves and 20-iteration flow-integration solves")
 
 
 FORMATS = ["coo", "csr", "csc"]
